@@ -245,6 +245,7 @@ def core_docs(tier):
         out.append(("palette", c))
     out.append(("collide", 0))
     out.append(("collide", 3))
+    out.append(("collide", 5))
     return out
 
 
@@ -254,10 +255,12 @@ def collide_doc(variant: int):
     from mc.spec import Cmp, Container, Doc, IntEnc, Param, PType, header_entries, header_params, header_ptypes
     pts = header_ptypes() + (PType("STATUS", "Integer", IntEnc(8)), PType("NEST", "Integer", IntEnc(4)))
     prs = header_params() + (Param("STATUS", "STATUS"), Param("NEST", "NEST"), Param("CCSDSPacket", "NEST"), Param("TAIL", "STATUS"))
+    # variant & 4: the nested container's name is padded with blanks (spelled the same wherever it is referenced): a name is the exact string
+    nn = " NEST  " if variant & 4 else "NEST"
     conts = [Container("CCSDSPacket", header_entries(), abstract=True),
-             Container("STATUS", (("p", "STATUS"), ("c", "NEST"), ("p", "TAIL")), base="CCSDSPacket", criteria=(Cmp("PKT_APID", "==", "1"),)),
-             Container("NEST", (("p", "NEST"), ("p", "CCSDSPacket"))),
-             Container("TAIL", (("c", "NEST"), ("p", "STATUS")), base="CCSDSPacket", criteria=(Cmp("PKT_APID", "==", "2"),))]
+             Container("STATUS", (("p", "STATUS"), ("c", nn), ("p", "TAIL")), base="CCSDSPacket", criteria=(Cmp("PKT_APID", "==", "1"),)),
+             Container(nn, (("p", "NEST"), ("p", "CCSDSPacket"))),
+             Container("TAIL", (("c", nn), ("p", "STATUS")), base="CCSDSPacket", criteria=(Cmp("PKT_APID", "==", "2"),))]
     if variant & 1:
         conts = list(reversed(conts))
     if variant & 2:
@@ -357,7 +360,7 @@ def run(ctx):
         specs = specs[::2]
     else:
         specs = specs[::3]
-    items = [("collide", v) for v in range(4)] + [("trees", s) for s in specs] + [("palette", ((a, b), (a + b) % 3 + 1)) for a in range(len(c01.pal())) for b in range(0, len(c01.pal()), 5)]
+    items = [("collide", v) for v in range(8)] + [("trees", s) for s in specs] + [("palette", ((a, b), (a + b) % 3 + 1)) for a in range(len(c01.pal())) for b in range(0, len(c01.pal()), 5)]
     tally.merge(fan_out(_task_consistency, [{"items": ch} for ch in chunked(items, 128)], jobs=ctx.jobs, seed=ctx.seed))
     tally.merge(fan_out(_task_bundled, [{"item": it} for it in BUNDLED], jobs=ctx.jobs, mem_gib=None))
     coverage = {
